@@ -19,6 +19,7 @@ theorem iteration_complete (p : Params) (hp : p ∈ allParams) (mat : List PolyV
     ∃ ct z h w1, compute_ctilde p mu (k_pack_w1 p.lvl w1) = .ok ct ∧
       pack_sig p (ct ++ List.replicate (p.sigBytes - p.ctilde) 0) none z h = .ok sig ∧
       z.length = p.l ∧ (∀ a ∈ z, a.length = 256 ∧ ∀ x ∈ a, -((p.gamma1 : Int) - p.beta) < x ∧ x < (p.gamma1 : Int) - p.beta) ∧
+      h.length = p.k ∧ (∀ a ∈ h, HintCodec.Bits a) ∧ (HintCodec.idxOf h).length ≤ p.omega ∧
       ∀ pk rho trh, shake256 CRHBYTES p.trBytes pk p.pkBytes = .ok trh → matrix_expand p FUEL rho = .ok mat →
         verify_tail p pk rho t1 ct z h = .ok (trh, k_pack_w1 p.lvl w1) := by
   obtain ⟨_, _, _, _, hg1, _⟩ := params_facts p hp
@@ -32,7 +33,8 @@ theorem iteration_complete (p : Params) (hp : p ∈ allParams) (mat : List PolyV
     exact ⟨this.1, fun x hx => by have := this.2 x hx; omega⟩
   obtain ⟨ct, cp, z, h, w1, a0, sf⟩ := sign_facts p hp mat kf.mat_ok s1 s2 t0 s1h s2h t0h
     (keyData_of_facts p mat s1 s2 t1 t0 s1h s2h t0h kf e1 e2 e0) mu rp nonce sig Hy Hc hacc
-  refine ⟨ct, z, h, w1, sf.hct, sf.hpack, sf.zl, fun a ha => ⟨(sf.zb a ha).1, (sf.zb a ha).2⟩, ?_⟩
+  refine ⟨ct, z, h, w1, sf.hct, sf.hpack, sf.zl, fun a ha => ⟨(sf.zb a ha).1, (sf.zb a ha).2⟩,
+    by rw [sf.hint.length.2, ← sf.hint.length.1, sf.w1l], sf.hbits, sf.hw, ?_⟩
   intro pk rho trh htr hme
   exact verify_reconstructs p hp mat kf.mat_ok s1 s2 t0 t1 kf.t1l kf.t1s kf.rel mu sig ct cp z h w1 a0 (Hc ct cp sf.hcp) sf pk rho trh htr hme
 
